@@ -502,8 +502,13 @@ func partB(c *gal.Ctx) {
 			c.OracleFail(idx, fmt.Sprintf("%q is reported PASS although every hardware access failed", t.Name), site, d)
 			return
 		}
-		if mode != faultNone && t.Result == test.ResultPass {
+		if mode != faultNone && k <= n && t.Result == test.ResultPass {
 			passPartial[t.Name]++
+			if !redundantSources[t.Name] {
+				c.OracleFail(idx, fmt.Sprintf("%q is reported PASS although hardware call #%d (%s) of this run failed (pattern %q) and the check is not one of those with a reviewed redundant source; fail-closed reading of the property, stricter than its total-failure clause",
+					t.Name, k, d.Call, d.Pattern), site, d)
+				return
+			}
 		}
 		if m := e.runnerOracle(t, r); m != "" {
 			c.OracleFail(idx, "on the real suite graph, "+t.Name+": "+m, siteRun, d)
@@ -624,6 +629,16 @@ func partB(c *gal.Ctx) {
 	c.Rep.Notes = append(c.Rep.Notes,
 		"Part B is an enumeration on the real checks (fault matrix), not a theorem; fallible accesses = every hwapi method that can return an error plus ReadMSR (failure = empty result); CPUID accessors are not faulted",
 		"Part B environment: GetACPITableSysFS and the IOMMU lookup of go-linux-lowlevel-hw read the host's /sys directly (not through the hardware interface); on this host they fail, which the checks treat as absence")
+}
+
+// Checks that may legitimately pass although one access failed: they obtain
+// ACPI tables through GetACPITableDevMem, which walks RSDT and XSDT and
+// tolerates the loss of one of the two (reviewed 2026-09; every other check
+// must not pass when an access it or its dependencies made has failed).
+var redundantSources = map[string]bool{
+	"ACPI RSDT or XSDT is valid": true, "ACPI XSDT is valid": true,
+	"ACPI DMAR is present": true, "ACPI DMAR is valid": true,
+	"ACPI MADT is present": true, "ACPI MADT is valid": true, "ACPI MCFG is present": true,
 }
 
 var healthyCalls = map[*test.Test]int{}
